@@ -377,24 +377,29 @@ def check_module(R, m, exe, nvals, nmut, findings):
                     R.fail("uper-framing", m, l, o, {"frame_uper": h, "expected_prefix": pre, "expected_field": field[:200]})
                 else: R.stats["uper_framing_ok"] += 1
     # ---------------- mismatches and unknown identifiers (P4, P5) + get-level correspondence (K2)
+    # a syntax in which some row type has no codec at all (F32: SET under UPER) is left out of the mismatch /
+    # mutation tests of this module: a mutated identifier could select that row
+    noskip_free = {syn for syn in ("der", "uper", "cxer") if any(c01.skip_region(syn, gfind.features(env[r["name"]], env), collections.Counter()) for r in rows)}
     enc_lines = []; enc_meta = []
     for i, rowi in enumerate(rows):
         others = [r for r in rows if r["name"] != rowi["name"]]
         for rowj in others[:4] if len(rows) > 4 else others:
-            for v, sx in rowvals[rowj["name"]][:2]:
+            for v, sx in [x for x in rowvals[rowj["name"]] if len(x[1]) <= 1500][:2]:
                 fsx = genmod_ioc.frame_sexp(m, rowi["id"], rowj["name"], sx, genmod_ioc.extras_values(m, vg, 0), env)
                 for syn in ("der", "uper", "cxer"):
+                    if syn in noskip_free: continue
                     if c01.skip_region(syn, gfind.features(env[rowj["name"]], env), collections.Counter()): continue
                     enc_lines.append(f"@Frame enc {syn} {fsx}"); enc_meta.append(("mismatch", syn, rowi["id"], rowj["name"], fsx))
     for u in unknown[:3]:
         for rowj in rows[:3]:
-            v, sx = rowvals[rowj["name"]][0]
+            v, sx = min(rowvals[rowj["name"]], key=lambda x: len(x[1]))
             fsx = genmod_ioc.frame_sexp(m, u, rowj["name"], sx, genmod_ioc.extras_values(m, vg, 0), env)
             for syn in ("der", "uper", "cxer"):
+                if syn in noskip_free: continue
                 if c01.skip_region(syn, gfind.features(env[rowj["name"]], env), collections.Counter()): continue
                 enc_lines.append(f"@Frame enc {syn} {fsx}"); enc_meta.append(("unknown", syn, u, rowj["name"], fsx))
     for syn, row, fsx, h in valid:
-        if syn != "xer": enc_meta.append(("valid", "cxer" if syn == "cxer" else syn, row["id"], row["name"], fsx)); enc_lines.append(f"@Frame enc {syn} {fsx}")
+        if syn != "xer" and len(h) <= 3000: enc_meta.append(("valid", "cxer" if syn == "cxer" else syn, row["id"], row["name"], fsx)); enc_lines.append(f"@Frame enc {syn} {fsx}")
     eouts, _ = ctx.run_c_bisect(exe, enc_lines)
     dec_lines = []; dec_meta = []
     for l, o, me in zip(enc_lines, eouts, enc_meta):
@@ -402,13 +407,14 @@ def check_module(R, m, exe, nvals, nmut, findings):
         if not o.startswith("ok "):
             R.fail("encode-of-frame-failed", m, l, o); continue
         h = o.split()[1]
-        dec_lines.append(f"@Frame dec {me[1]} {h}"); dec_meta.append(me + (h,))
+        dec_lines.append(f"@Frame odec {me[1]} {h}"); dec_meta.append(me + (h,))
     douts, _ = ctx.run_c_bisect(exe, dec_lines)
     # inner outcome of every row type's own decoder on the member's bytes (input of the model)
     inner_lines = []; inner_idx = []
     for k, (l, o, me) in enumerate(zip(dec_lines, douts, dec_meta)):
         kind, syn, idv, rowname, fsx, h = me
         member = None
+        if len(inner_lines) > 1200: break
         if syn == "der":
             top = der_tlvs(bytes.fromhex(h))
             if top and len(top) == 1:
@@ -488,15 +494,16 @@ def check_module(R, m, exe, nvals, nmut, findings):
     seen = set()
     per = max(1, budget // max(1, len(valid)))
     for syn, row, fsx, h in valid:
-        if syn == "xer" or h == "-": continue
+        if syn == "xer" or h == "-" or len(h) > 4000 or syn in noskip_free: continue
         b = bytes.fromhex(h)
-        muts = [b[:k] for k in range(len(b))] + [b[:i // 8] + bytes([b[i // 8] ^ (0x80 >> (i % 8))]) + b[i // 8 + 1:] for i in range(8 * len(b))]
-        if len(muts) > per: muts = ctx.rng.sample(muts, per)
+        picks = list(range(9 * len(b)))          # k < len(b): truncation to k octets; else flip of bit k - len(b)
+        if len(picks) > per: picks = ctx.rng.sample(picks, per)
+        muts = [b[:k] if k < len(b) else b[:(k - len(b)) // 8] + bytes([b[(k - len(b)) // 8] ^ (0x80 >> ((k - len(b)) % 8))]) + b[(k - len(b)) // 8 + 1:] for k in picks]
         for mb in muts:
             key = (syn, mb)
             if key in seen: continue
             seen.add(key)
-            mlines.append(f"@Frame dec {'xer' if syn == 'cxer' else syn} {mb.hex() or '-'}"); mmeta.append(syn)
+            mlines.append(f"@Frame odec {'xer' if syn == 'cxer' else syn} {mb.hex() or '-'}"); mmeta.append(syn)
     mouts, _ = ctx.run_c_bisect(exe, mlines)
     for l, o, syn in zip(mlines, mouts, mmeta):
         o = str(o)
